@@ -58,15 +58,24 @@ package implements
 //@   ensures tuple != nil ==> len(result) == tuple.Len()
 //@   loop 1 invariant len(result) == tuple.Len() && 0 <= $v
 //@ func extractMethodsFromInterface
-//@   props C10
+//@   props C05 C10
 //@   assigns nothing
-//@   loop 1 invariant 0 <= $v
+//@   ensures len(result) == iface.NumMethods()
+//@   ensures forall a int :: 0 <= a && a < len(result) ==> result[a].Name == iface.Method(a).Name()
+//@   loop 1 invariant 0 <= $v && $v <= iface.NumMethods() && len(methods) == $v
+//@   loop 1 invariant forall a int :: 0 <= a && a < len(methods) ==> methods[a].Name == iface.Method(a).Name()
+// the type's methods are read from go/types' method set of *T (which contains the methods of T and *T, including the ones
+// promoted through embedding): one model per selection, in order, with its name and whether its receiver is a pointer
+//@ macro func msOf(named *types.Named) *types.MethodSet = types.NewMethodSet(types.NewPointer(named))
 //@ func extractMethodsFromNamedType
-//@   props C10
+//@   props C05 C10
 //@   assigns nothing
+//@   ensures len(result) == msOf(named).Len()
+//@   ensures forall a int :: 0 <= a && a < len(result) ==> result[a].Name == msOf(named).At(a).Obj().Name() && result[a].ReceiverIsPointer == typeis(cast(cast(msOf(named).At(a).Obj(), *types.Func).Type(), *types.Signature).Recv().Type(), *types.Pointer)
 //@   ensures forall a int, b int :: 0 <= a && a < b && b < len(result) ==> result[a].Name != result[b].Name
 //@   loop 1 invariant 0 <= $v && $v <= methodSet.Len() && methodSet != nil && len(methods) == $v
-//@   loop 1 invariant forall a int :: 0 <= a && a < len(methods) ==> methods[a].Name == methodSet.At(a).Obj().Name()
+//@   loop 1 invariant methodSet == msOf(named)
+//@   loop 1 invariant forall a int :: 0 <= a && a < len(methods) ==> methods[a].Name == methodSet.At(a).Obj().Name() && methods[a].ReceiverIsPointer == typeis(cast(cast(methodSet.At(a).Obj(), *types.Func).Type(), *types.Signature).Recv().Type(), *types.Pointer)
 //@ func isPointerReceiver
 //@   props C10
 //@   nilable t
@@ -81,12 +90,12 @@ package implements
 //@ macro func mtEq(a MethodType, b InterfaceType) bool = a.TypeName == b.TypeName && a.TypePackage == b.TypePackage && a.IsPointer == b.IsPointer && a.IsVariadic == b.IsVariadic
 //@ macro func sigEq(tm TypeMethod, im InterfaceMethod) bool = len(tm.Inputs) == len(im.Inputs) && len(tm.Outputs) == len(im.Outputs) && (forall i int :: 0 <= i && i < len(tm.Inputs) ==> mtEq(tm.Inputs[i], im.Inputs[i])) && (forall i int :: 0 <= i && i < len(tm.Outputs) ==> mtEq(tm.Outputs[i], im.Outputs[i]))
 //@ func typesMatch
-//@   props C10
+//@   props C05 C10
 //@   requires t1 != nil && t2 != nil
 //@   ensures result == mtEq(*t1, *t2)
 //@   assigns nothing
 //@ func signaturesMatch
-//@   props C10
+//@   props C05 C10
 //@   ensures result == sigEq(typeMethod, ifaceMethod)
 //@   assigns nothing
 //@   loop 1 invariant forall k int :: 0 <= k && k < $i ==> mtEq(typeMethod.Inputs[k], ifaceMethod.Inputs[k])
@@ -97,7 +106,7 @@ package implements
 
 // IMPL01: exactly the annotations whose qualifier is not bound (PackageNotFound, decided by util.ImportMap.Find)
 //@ func FindMissingPackages
-//@   props C17 C10
+//@   props C05 C17 C10
 //@   assigns nothing
 //@   ensures forall j int :: 0 <= j && j < len(result) ==> (exists k int :: 0 <= k && k < len(annotations) && annotations[k].PackageNotFound && result[j].Pos == annotations[k].OnTypePos && result[j].TypeName == annotations[k].OnType && result[j].PackageName == annotations[k].PackageName)
 //@   ensures forall k int :: 0 <= k && k < len(annotations) && annotations[k].PackageNotFound ==> (exists j int :: 0 <= j && j < len(result) && result[j].Pos == annotations[k].OnTypePos && result[j].TypeName == annotations[k].OnType && result[j].PackageName == annotations[k].PackageName)
@@ -110,7 +119,7 @@ package implements
 //@ macro func uniqueNames(tm *TypeModel) bool = forall a int, b int :: 0 <= a && a < b && b < len(tm.Methods) ==> tm.Methods[a].Name != tm.Methods[b].Name
 // IMPL03 (in the matcher's own model): exactly the interface methods without a usable method of the same name and signature
 //@ func checkImplementation
-//@   props C10
+//@   props C05 C10
 //@   requires typeModel != nil && iface != nil && uniqueNames(typeModel)
 //@   assigns nothing
 //@   ensures forall j int :: 0 <= j && j < len(result) ==> (exists k int :: 0 <= k && k < len(iface.Methods) && result[j] == iface.Methods[k] && !implemented(typeModel, iface.Methods[k], requirePointer))
@@ -130,7 +139,7 @@ package implements
 //@ macro func mi02(r MissingInterfaceReport, a annotations.ImplementsAnnotation) bool = r.Pos == a.OnTypePos && r.TypeName == a.OnType && r.PackageName == a.PackageName && r.InterfaceName == a.InterfaceName
 // IMPL02: exactly the annotations with a bound qualifier for which no loaded interface has the key
 //@ func FindMissingInterfaces
-//@   props C17 C10
+//@   props C05 C17 C10
 //@   requires forall k int :: 0 <= k && k < len(interfaces) ==> interfaces[k] != nil
 //@   assigns nothing
 //@   ensures forall j int :: 0 <= j && j < len(result) ==> (exists k int :: 0 <= k && k < len(annotations) && !annotations[k].PackageNotFound && !haveIface(interfaces, annotations[k]) && mi02(result[j], annotations[k]))
@@ -177,7 +186,7 @@ package implements
 //@   loop 1 invariant targetTypes != nil && fresh(targetTypes)
 
 //@ func FindMissingMethods
-//@   props C17 C10
+//@   props C05 C17 C10
 //@   requires forall k int :: 0 <= k && k < len(interfaces) ==> interfaces[k] != nil
 //@   requires forall k int :: 0 <= k && k < len(types) ==> types[k] != nil && uniqueNames(types[k])
 //@   assigns nothing
